@@ -179,6 +179,39 @@ fn run(input_chunks: &[&[u8]], cfg: Cfg, opts: &Opts) -> Run {
     res
 }
 
+/// C06: handler set H = element handlers on a few names only (so the tag scanner runs between them and hands over to the lexer
+/// on a match), alone or together with document-level observers O; returns what H saw (start tags with namespace and the text
+/// scoped to `svg`) and the output
+fn run_selective(input: &[u8], with_observers: bool, cut: Option<usize>) -> (Vec<String>, Vec<u8>, Option<String>) {
+    let ev = Rc::new(RefCell::new(vec![]));
+    let acc = Rc::new(RefCell::new(String::new()));
+    let (e1, e2, a2) = (ev.clone(), ev.clone(), acc.clone());
+    let mut settings = Settings::new()
+        .append_element_content_handler(element!("svg, b, i, title, a", move |el| { e1.borrow_mut().push(format!("S:{}:{}", el.tag_name(), el.namespace_uri())); Ok(()) }))
+        .append_element_content_handler(text!("svg", move |t| {
+            a2.borrow_mut().push_str(t.as_str());
+            if t.last_in_text_node() { let s = std::mem::take(&mut *a2.borrow_mut()); if !s.is_empty() { e2.borrow_mut().push(format!("T:{:?}:{s}", t.text_type())); } }
+            Ok(())
+        }));
+    if with_observers {
+        settings = settings.append_document_content_handler(doc_text!(|_t| Ok(()))).append_document_content_handler(doc_comments!(|_c| Ok(())))
+            .append_element_content_handler(element!("*", |_el| Ok(())));
+    }
+    settings = settings.with_strict(false);
+    let out = Rc::new(RefCell::new(vec![]));
+    let o2 = out.clone();
+    let mut err = None;
+    {
+        let mut rw = HtmlRewriter::new(settings, move |c: &[u8]| o2.borrow_mut().extend_from_slice(c));
+        let parts: Vec<&[u8]> = match cut { Some(c) => vec![&input[..c], &input[c..]], None => vec![input] };
+        for p in parts { if let Err(e) = rw.write(p) { err = Some(e.to_string()); break; } }
+        if err.is_none() { if let Err(e) = rw.end() { err = Some(e.to_string()); } }
+    }
+    let r = ev.borrow().clone();
+    let o = out.borrow().clone();
+    (r, o, err)
+}
+
 const ALPHABET: &[u8] = b"<>/a!-=\" sx'";
 const SEEDS: &[&str] = &[
     "<!DOCTYPE html><html><head><title>t&amp;<b></title></head><body class=x><p id=\"a b\" data-q='1'>hi<br/>there</p><!-- c --><script>if(a<b){}</script></body></html>",
@@ -189,6 +222,8 @@ const SEEDS: &[&str] = &[
     "<select><option>a<template><p></template></select><frameset></frameset>text",
     "<p>caf\u{e9} \u{4e2d}\u{6587} \u{1f600}</p><a href=\"\u{e9}\">x</a>",
     "<a b='c' d=\"e\" f=g h i=>j</a><img src=x /><br><input disabled>",
+    "<div><svg><g><![CDATA[k<b>c</b>]]></g></svg></div><math><mn><![CDATA[<i>]]></mn><![CDATA[<a>]]></math><![CDATA[z]]><i>",
+    "<svg><desc><![CDATA[x]]><b></b></desc><![CDATA[<a>]]><foreignObject><![CDATA[<i>]]></foreignObject></svg><a>",
 ];
 
 fn cuts_of(len: usize, max_cuts: usize) -> Vec<Vec<usize>> {
@@ -288,6 +323,15 @@ fn check_input(prop: &str, input: &[u8], max_cuts: usize, rep: &mut Report) {
                     let a: Vec<&String> = base.events.iter().filter(|e| e.starts_with("S:") || e.starts_with("E:")).collect();
                     let b: Vec<&String> = with_obs.events.iter().filter(|e| e.starts_with("S:") || e.starts_with("E:")).collect();
                     if a != b || base.out != with_obs.out { rep.fail("observers changed another handler's events", input, &[], cfg, format!("alone={:?} with_observers={:?}", a, b)); }
+                }
+                if cfg == Cfg::None {
+                    // selective element handlers (scanner + hand-over) alone vs together with observers that force the lexer
+                    for cut in std::iter::once(None).chain((1..input.len()).map(Some)).take(if input.len() > 12 { 200 } else { 13 }) {
+                        let (a, ao, ae) = run_selective(input, false, cut);
+                        let (b, bo, be) = run_selective(input, true, cut);
+                        rep.cases += 2;
+                        if a != b || ao != bo || ae != be { rep.fail("observers changed what selective element/text handlers see (scanner/lexer hand-over)", input, &cut.map_or(vec![], |c| vec![c]), cfg, format!("alone={:?} with_observers={:?}", a, b)); break; }
+                    }
                 }
                 if cfg == Cfg::TextOnly {
                     let with_obs = run(&[input], Cfg::ObserveAll, &Opts::default());
